@@ -124,3 +124,90 @@ def rule_U2(ctx, rule="U2"):
                                 ctx.ob(rule, path, "advance-after-write:field%d" % fidx, ok, how="published length advanced only after the bytes were written",
                                        detail="the length the guard publishes is advanced before the corresponding bytes are written")
     ctx.need(rule, "crate", "guarded-user-edges", n >= 1, "no user-code edge inside a mutable-view window found (retain changed shape?)", how="%d user-code edge(s) inside a mutable-view window" % n)
+
+
+def rule_extend_inplace(ctx, rule="C18-inplace"):
+    """Extend impls append every item to the target itself, as it arrives: after a panic of the
+    iterator the target holds its old text plus the items yielded so far (what String holds).
+    Structural form: every append reachable from `extend` (through closures and private helpers) has
+    the `&mut self` parameter as its receiver, and the target is never assigned as a whole."""
+    from guards import inlined_sites
+    F = ctx.F
+    APPENDS = ("LeanString::push", "LeanString::push_str", "LeanString::try_push", "LeanString::try_push_str", "<LeanString as core::fmt::Write>::write_str",
+               "<LeanString as core::fmt::Write>::write_char", "repr::Repr::push_str", "LeanString::insert", "LeanString::insert_str")
+    n = 0
+    for i in F.impls:
+        if i["trait"] != "core::iter::traits::collect::Extend" or i["self"] != "LeanString":
+            continue
+        key = i["items"].get("extend")
+        b = F.bodies.get(key)
+        if b is None:
+            continue
+        n += 1
+        is_app = lambda nm: nm in APPENDS or (nm.endswith("::extend") and "Extend<" in nm and nm.startswith("<LeanString as")) or nm == "core::iter::traits::collect::Extend::extend"
+        sites = inlined_sites(b, is_app)
+        recv = [st.desc(0) for st in sites]
+        ok = bool(sites) and all(r in ("p1", "p1.0") for r in recv)
+        ctx.ob(rule, key, "appends-to-self", ok, how="%d append site(s), all on the &mut self parameter" % len(sites),
+               detail="extend appends to %s: items are gathered somewhere else than in the target, so a panicking iterator leaves the target without the items already yielded (String keeps them)" % (sorted(set(recv)) or "nothing"))
+        whole = [s.get("line", 0) for blk in b.blocks for s in blk["stmts"] if s["k"] == "assign" and s["lhs"]["l"] == 1 and s["lhs"]["p"] == ["deref"]]
+        taken = [t.get("line", 0) for _, t in b.calls() if callee_name(t) in ("core::mem::take", "core::mem::replace", "core::mem::swap") and any("LeanString" in x for x in t.get("arg_tys", []))]
+        ctx.ob(rule, key, "no-whole-assignment", not whole and not taken, how="the target is only appended to", detail="extend replaces the target as a whole (line %s): between taking the old value and storing the result a panic of the iterator loses text" % (whole + taken))
+    ctx.need(rule, "crate", "Extend-impls", n >= 5, "only %d Extend impls for LeanString found" % n, how="%d Extend impls" % n)
+
+
+def rule_items_appended(ctx, rule="C16-items", traits=("core::iter::traits::collect::FromIterator",)):
+    """In the collecting impls every element taken from the iterator is appended before the next one
+    is requested or the function returns: on each path from the `Some(x)` edge of a `next()` call to
+    `return` / another `next()`, an append of that element lies in between.  (An element parked in a
+    local and pushed only inside a closure that runs on one arm of a Result - e.g. only when a
+    pre-sizing allocation succeeded - is lost on the other arm.)"""
+    from guards import edge_fact, describe
+    F = ctx.F
+    APP = ("LeanString::push", "LeanString::push_str", "LeanString::try_push", "LeanString::try_push_str", "repr::Repr::push_str")
+    n = 0
+    for i in F.impls:
+        if i["trait"] not in traits or i["self"] != "LeanString":
+            continue
+        for nm, key in i["items"].items():
+            b = F.bodies.get(key)
+            if b is None:
+                continue
+            nexts = [bb for bb, t in b.calls() if callee_name(t) == "core::iter::traits::iterator::Iterator::next" or callee_name(t).endswith(" as core::iter::traits::iterator::Iterator>::next")]
+            if not nexts:
+                continue
+            apps = set()
+            for bb, t in b.calls():
+                if callee_name(t) in APP and len(t["args"]) >= 2 and "item(" in describe(b, b.origin_operand(t["args"][1])):
+                    apps.add(bb)
+            for N in nexts:
+                some_targets = []
+                for sb in range(b.n):
+                    t = b.term(sb)
+                    if t["k"] != "switch":
+                        continue
+                    for lab, tgt in [(v, x) for v, x in t["arms"]] + [("otherwise", t["otherwise"])]:
+                        f = edge_fact(b, sb, lab)
+                        if f and f[0] == "cls" and f[1] == N and f[2] == "Some":
+                            some_targets.append(tgt)
+                if not some_targets:
+                    continue
+                n += 1
+                bad = None
+                for S in some_targets:
+                    seen, st = set(), [S]
+                    while st and bad is None:
+                        x = st.pop()
+                        if x in seen or x in apps:
+                            continue
+                        seen.add(x)
+                        tx = b.term(x)
+                        if tx["k"] == "return":
+                            bad = "return (line %s)" % tx.get("line")
+                        elif x in nexts:
+                            bad = "the next element is requested (line %s)" % tx.get("line")
+                        for s2, lab in b.succ(x, unwind=False):
+                            st.append(s2)
+                ctx.ob(rule, key, "element-appended:next#%d" % nexts.index(N), bad is None, line=b.line(N), how="every path from Some(x) passes an append of x before the next next() / return",
+                       detail="an element taken from the iterator can be dropped without being appended: from the Some edge of next() (line %s), %s is reachable without an append of that element" % (b.line(N), bad))
+    ctx.need(rule, "crate", "collecting-loops", n >= 1, "no element loop found in the collecting impls", how="%d element loops" % n)
